@@ -5,7 +5,7 @@ consumes the matching end on every success path or errors — so a node can neve
 or taken from, a neighbouring position — plus the key/value pairing guard, the end-of-variant
 checks of all enum notations and the leftover check of the single-document entry points."""
 from ..mir import MissingAnchor, sym_contains
-from ..rules import render, aggregates, last_seg, bool_switches, must_pass, switch_edges, compares
+from ..rules import through_flag, render, aggregates, last_seg, bool_switches, must_pass, switch_edges, compares
 from .. import proto
 from . import C11
 
@@ -217,6 +217,10 @@ def run(ctx):
                     if sym[0] == "discr" and "peek(" in r and "@Some" in r and ms_idx in t["vals"]:
                         arms = dict(zip(t["vals"], t["tgts"]))
                         ms_edges.append((b, arms[ms_idx]))
+                        # `matches!(peek, Some(MapStart))`: the arm only sets a flag that is switched on at the join
+                        y, _no = through_flag(f, arms[ms_idx], [])
+                        if y != arms[ms_idx]:
+                            ms_edges.append((f.blocks[arms[ms_idx]]["term"]["t"], y))
             consumed = []
             for b, t in f.calls():
                 if fx.callee_decl(t) == "de::Events::next" or fx.callee(t).endswith("Events>::next") or last_seg(fx.callee_decl(t)) == "next":
